@@ -148,6 +148,15 @@ def view_rules(rep, mod, results, tagD):
                     else:
                         ks.append("value")
                 kinds.add(tuple(k for k in ks if k != "value"))
+        # R05.nomove: the source of these operations is a plain view (a reference to someone else's elements), never an explicitly moved one
+        # (element_moved / multi::move): its elements are copied, not moved from
+        key = "R05.nomove@%s" % n
+        movers = sorted({re.sub(r"^.*\) ", "", str(e[1]))[-40:] for r in traces for e in events_of(r, ("assign", "construct")) if re.search(r"adl_(alloc_)?(uninitialized_)?move", str(e[1]))})
+        if movers:
+            rep.violated(key, "R05.nomove", "%s (%s) moves from the elements of its source view (%s): assigning from a view must leave the source's elements untouched"
+                         % (op["body"], tagD, movers[0]), dict(operation=op["body"], primitives=movers))
+        else:
+            rep.ok(key + "#" + tagD, "R05.nomove", None)
         # R05.count: a counted element primitive (copy_n / fill_n ...) covers exactly the destination: over flat pointers or elements() iterators the count
         # is num_elements() of the destination (or of the source, whose extents are asserted equal), over array iterators it is the leading size()
         key = "R05.count@%s" % n
